@@ -135,6 +135,7 @@ fn render(ev: &Ev) -> String {
         Ev::FetchAdd { addr, val, ord: o } => format!("fadd {addr} {val} {}", ord(o)),
         Ev::FetchOr { addr, val, ord: o } => format!("for {addr} {val} {}", ord(o)),
         Ev::FetchAnd { addr, val, ord: o } => format!("fand {addr} {val} {}", ord(o)),
+        Ev::Rmw { addr, op, val, ord: o } => format!("rmw {addr} {op} {val} {}", ord(o)),
         Ev::LoadBool { addr, ord: o } => format!("ldb {addr} {}", ord(o)),
         Ev::StoreBool { addr, val, ord: o } => format!("stb {addr} {} {}", val as u8, ord(o)),
         Ev::Lock { addr } => format!("lock {addr}"),
